@@ -31,7 +31,7 @@ LEVEL_NOTE = ("per-stream order preserved; backlog of every stream kept below th
 RULE = ("seeded schedules: list of (stream, burst, yields) steps over N=15..60 indices; kinds flat / composed / 3phase. "
         "distinct = canonical schedule JSON; non-trivial = >=2 streams and >=10 outputs decoded")
 B = 1000
-REQUIRED_BUCKETS = ["kind:flat", "kind:composed", "kind:3phase", "different-first-timestamps", "reader-late",
+REQUIRED_BUCKETS = ["kind:flat", "kind:composed", "kind:3phase", "kind:fallback-term", "different-first-timestamps", "reader-late",
                     "reader-before-data", "burst>=20", "second-reader", "lagging-stream>=20",
                     "stream-seconds-behind-the-others"]
 REQUIRED_COUNTERS = ["outputs_decoded", "schedules_run"]
@@ -45,6 +45,16 @@ def budget(tier: str) -> dict[str, Any]:
 
 
 def gen(rng: Any, tier: str, i: int) -> Any:
+    if rng.random() < 0.08:
+        # an input term with a fallback source (the SDK default for battery / PV / consumer / producer power): the
+        # timeline must stay gap-free while the term switches sources; driver and oracle are those of C19 (tier A)
+        from . import c19
+
+        case = c19.gen(rng, tier, i)
+        while case.get("tier") == "B":
+            case = c19.gen(rng, tier, i)
+        case["kind"] = "fallback-term"
+        return case
     kind = rng.choice(["flat", "flat", "composed", "3phase"])
     if kind == "flat":
         n = rng.randint(1, 4)
@@ -179,6 +189,11 @@ def _decode(v: float, ids: list[int]) -> list[int]:
 
 def check(case: dict[str, Any], rec: Any) -> None:
     rec.bucket("kind:" + case["kind"])
+    if case["kind"] == "fallback-term":
+        from . import c19
+
+        c19.check(case, rec)
+        return
     n, N, first = case["n"], case["N"], case["first"]
     if len(set(first)) > 1:
         rec.bucket("different-first-timestamps")
